@@ -56,6 +56,11 @@ struct Run<'a> {
     s_res: String,
     req_movedup: bool,
     s_now: u64,
+    last_full: Vec<u8>,
+}
+
+fn ref_full_guess(terms: &mut BTreeMap<String, Terms>, j: usize) -> Vec<u8> {
+    terms.get_mut("ideal").and_then(|t| t.full(j).ok()).unwrap_or_default()
 }
 
 fn t48(v: &Value) -> Time48 {
@@ -107,6 +112,7 @@ impl<'a> Run<'a> {
         let mac = match (&rr, op.get("macref")) {
             (Some(rr), Some(m)) if m["j"].as_u64().unwrap_or(0) > 0 => {
                 let (j, n) = (m["j"].as_u64().unwrap() as usize, m["n"].as_u64().unwrap_or(0) as usize);
+                self.last_full = ref_full_guess(&mut self.terms, j);
                 if rr.mac.len() != n { "length".to_string() } else { self.which_term(j, n, &rr.mac) }
             }
             (Some(rr), _) => if rr.mac.is_empty() { "none".into() } else { "unexpected".into() },
@@ -167,6 +173,14 @@ impl<'a> Run<'a> {
                     "FlipBody" => { f.wire[off - 1] ^= 1; reencode = false; }
                     "FlipMac" => { rr.mac[(arg - 1) as usize] ^= 1; }
                     "TruncShort" | "TruncOk" => { rr.mac.truncate(arg as usize); }
+                    "ExtendMac" | "ExtendWithin" => {
+                        // appended octets never continue the genuine MAC
+                        for _ in 0..arg {
+                            let p = rr.mac.len();
+                            let b = if self.last_full.get(p) == Some(&0xa5) { 0x5a } else { 0xa5 };
+                            rr.mac.push(b);
+                        }
+                    }
                     "RenameKey" => { rr.name = name_wire("other.key."); }
                     "RecaseKey" => { rr.name = name_wire(KEYNAME_C); }
                     "SwapAlg" => { rr.alg = alg_wire(op["arg"].as_str().unwrap_or("md5")); }
@@ -283,6 +297,7 @@ impl<'a> Run<'a> {
                 let pre = msg_octets(id, 0x80, 0, b);
                 let (j, n) = (op["mac"].as_u64().unwrap() as usize, op["n"].as_u64().unwrap() as usize);
                 let mac = match self.terms.get_mut("ideal").unwrap().mac(j, n) { Ok(m) => m, Err(e) => return json!({"harness": e}) };
+                self.last_full = ref_full_guess(&mut self.terms, j);
                 let rr = TsigRr { name: name_wire(KEYNAME_S), alg: alg_wire(&alg), time: op["now"].as_u64().unwrap(),
                                   fudge: op["fudge"].as_u64().unwrap() as u16, mac, oid: id, err: 0, other: vec![] };
                 let mut wire = pre.clone();
@@ -367,6 +382,7 @@ fn main() {
             s_res: String::new(),
             req_movedup: false,
             s_now: 0,
+            last_full: vec![],
         };
         let mut obs = vec![];
         for op in input["ops"].as_array().cloned().unwrap_or_default() {
